@@ -513,6 +513,18 @@ func checkC06(c *Ctx) {
 			handFiles{"import-collision/none-with-disjoint-items", with("导入“甲”之甲专有\n导入“乙”之取值、备用\n输出【（甲专有），（取值），（备用）】\n"), "list[num(10),num(2),num(20)]"},
 			handFiles{"import-collision/in-a-module", map[string]string{"main.zn": "导入“中”\n输出 1\n", "中.zn": "导入“甲”之取值\n导入“乙”之取值\n令转 = 1\n", "甲.zn": two["甲.zn"], "乙.zn": two["乙.zn"]}, "error:43"},
 		)
+		// a call that the interpreter refuses (too deep) while blocks of the caller are open - through a
+		// function, a type method and a constructor, of this module and of an imported one: once the
+		// fault is handled, the caller's blocks have ended like after any other exception
+		chain := "定义节点：\n\t其深 = 0\n\t如何沉？\n\t\t输入层\n\t\t输出 以此（沉：层 + 1）\n如何新建节点？\n\t输入层\n\t其深 = 层\n\t如果 层 > 0：\n\t\t令下 = （新建节点：层 + 1）\n如何落？\n\t输入层\n\t输出（落：层 + 1）\n"
+		for _, via := range []struct{ name, call string }{{"constructor", "（新建节点：1）"}, {"type-method", "以（新建节点：0）（沉：1）"}, {"function", "（落：1）"}} {
+			probe := "如何试？\n\t如果 真：\n\t\t令内部 = 5\n\t\t以项遍历【1】：\n\t\t\t令更内 = 6\n\t\t\t令果 = " + via.call + "\n\t输出 “got”\n\n\t拦截异常：\n\t\t输出 “handled”\n令一 = （试）\n如何查？\n\t输出 内部\n\n\t拦截异常：\n\t\t输出 “gone”\n如何再查？\n\t输出 更内\n\n\t拦截异常：\n\t\t输出 “gone”\n输出【一，（查），（再查）】\n"
+			want := `list[text("handled"),text("gone"),text("gone")]`
+			cases = append(cases,
+				handFiles{"refused-call/" + via.name + "/same-module", map[string]string{"main.zn": chain + probe}, want},
+				handFiles{"refused-call/" + via.name + "/imported-module", map[string]string{"main.zn": "导入“链”\n" + probe, "链.zn": chain}, want},
+			)
+		}
 		c.runHandFiles("module-body", cases)
 		// the implicit names of a body that runs for an object (此, the receiver) are declarations of
 		// that body's block like its 输入 names: binding them again is a redeclaration
